@@ -143,3 +143,70 @@ def decl(d):
 
 def module(m):
     return 'Ns("",[' + ',\n'.join(decl(x) for x in m.content) + '],None)'
+
+
+# ---------------------------------------------------------------- instantiated trees
+def iarg(a):
+    return 'A(' + ty(a.ctype) + ',' + q(a.ctype.to_cpp()) + ',' + q(a.name) + ',' + opt(q, a.default) + ')'
+
+
+def iargs(al):
+    return L([iarg(a) for a in al.list()])
+
+
+def iret(r):
+    return ('R(' + ty(r.type1) + ',' + (ty(r.type2) if r.type2 else 'None') + ',' + q(r.to_cpp()) + ','
+            + ('void' if r.is_void() else '-') + ')')
+
+
+def ictor(c):
+    return 'ICtor(' + q(c.name) + ',' + q(c.to_cpp()) + ',' + iargs(c.args) + ')'
+
+
+def imethod(m):
+    return 'IMethod(' + q(m.name) + ',' + q(m.to_cpp()) + ',' + iret(m.return_type) + ',' + iargs(m.args) + ',' + flag(m.is_const, 'c') + ')'
+
+
+def istatic(m):
+    return 'IStatic(' + q(m.name) + ',' + q(m.to_cpp()) + ',' + iret(m.return_type) + ',' + iargs(m.args) + ')'
+
+
+def ivar(v):
+    return 'Var(' + ty(v.ctype) + ',' + q(v.ctype.to_cpp()) + ',' + q(v.name) + ',' + opt(q, v.default) + ')'
+
+
+def iop(o):
+    return 'Op(' + q(o.operator) + ',' + iret(o.return_type) + ',' + iargs(o.args) + ')'
+
+
+def ienum(e):
+    return 'Enum(' + q(e.name) + ',' + L([q(x.name) for x in e.enumerators]) + ')'
+
+
+def iclass(c):
+    return ('IClass(' + q(c.name) + ',' + q(c.to_cpp()) + ',' + L([q(n) for n in c.namespaces()]) + ',' + flag(c.is_virtual, 'v') + ','
+            + (q(str(c.parent_class)) if c.parent_class else 'None') + ',' + L([tn(i) for i in c.instantiations]) + ','
+            + L([ictor(x) for x in c.ctors]) + ',' + L([imethod(x) for x in c.methods]) + ','
+            + L([istatic(x) for x in c.static_methods]) + ','
+            + L(['Dunder(' + q(d.name) + ',' + iargs(d.args) + ')' for d in c.dunder_methods]) + ','
+            + L([ivar(x) for x in c.properties]) + ',' + L([iop(x) for x in c.operators]) + ','
+            + L([ienum(x) for x in c.enums]) + ')')
+
+
+def idecl(d):
+    import gtwrap.template_instantiator as inst
+    if isinstance(d, inst.InstantiatedClass):
+        return iclass(d)
+    if isinstance(d, inst.InstantiatedGlobalFunction):
+        return 'IFunc(' + q(d.name) + ',' + q(d.to_cpp()) + ',' + path(d) + ',' + iret(d.return_type) + ',' + iargs(d.args) + ')'
+    if isinstance(d, inst.InstantiatedDeclaration):
+        return 'IDecl(' + q(d.name) + ',' + q(d.to_cpp()) + ',' + L([q(n) for n in d.namespaces()]) + ')'
+    if isinstance(d, ip.Namespace):
+        return 'Ns(' + q(d.name) + ',[' + ',\n'.join(idecl(x) for x in d.content) + '])'
+    if isinstance(d, (ip.Class, ip.GlobalFunction, ip.TypedefTemplateInstantiation)):
+        raise TypeError('uninstantiated element in instantiated tree: %r' % (d,))
+    return decl(d)
+
+
+def imodule(m):
+    return 'Ns("",[' + ',\n'.join(idecl(x) for x in m.content) + '])'
